@@ -222,7 +222,7 @@ func (m Matches) uniquify() Matches {
 OUTER:
 	for _, match := range m {
 		for _, mr := range matched {
-			if match.Offset >= mr.offset && match.Offset <= mr.offset+mr.extent {
+			if match.Offset >= mr.offset && match.Offset < mr.offset+mr.extent {
 				continue OUTER
 			}
 		}
